@@ -454,12 +454,17 @@ class C11(PropBase):
             "symbolicates through SymbolFile::fill_symbol, through walk_stack/fill_source_line_info/Symbolizer::fill_symbol and "
             "through Symbolizer::get_symbol_at_address; the parsed tables are part of the answer. "
             "Exhaustive block over a 0..12 address domain, generated nested-inline files (depth <= 8), messy files (overlaps, "
-            "duplicates, zero sizes, top of the address space); module bases 0, 0x1000, 2^63, 2^64-1-k. "
+            "duplicates, zero sizes, top of the address space), deep inline chains (10..70 levels, missing levels, disconnected records at depth 2^31 / u32::MAX), "
+            "files with 10..40 FUNCs and up to 20 PUBLICs; module bases 0, 0x1000, 2^63, 2^64-1-k; the measured distribution (records per kind, overlap classes, "
+            "inline depth, PUBLIC/FUNC adjacency, where the queries fall) is in input_distribution.measured. "
             "Non-trivial = some query reports a function together with a source line or inline frame; distinct = distinct case lines")
     trusted_base = [
         "Coq 8.16.1 kernel (vm_compute only in the non-vacuity Examples)",
-        "model C11/Model.v written by hand from sym_file/{mod,types,parser}.rs and minidump-unwind/src/lib.rs; tied to the code by the correspondence run "
-        "(parsed tables and every callback argument compared); reuses the C08 range-table model",
+        "model C11/Model.v written by hand from sym_file/{mod,types,parser}.rs and minidump-unwind/src/lib.rs; tied to the code (1) by the correspondence run "
+        "(parsed tables and every callback argument compared) and (2) by translate/c11_symbolize.py: a template matcher (regular expressions over the "
+        "comment-stripped, whitespace-normalised function bodies) whose holes - comparison operators, operands, constants, table order, lookup keys, loop "
+        "start/stop - are translated to Gallina (Gen/C11Sym.v) and proved equal to the model (c11_source_tie); the templates' literal text and the "
+        "Gallina skeleton the holes are spliced into are trusted to say the same thing; reuses the C08 range-table model",
         "names are modelled as integers, rendered as letter + 4 digits so that String order = integer order (PublicSymbol's derived Ord)",
         "std slice::binary_search_by modelled as the Rust >= 1.82 halving loop; Vec::sort as a stable insertion sort; HashMap as insert log",
         "extraction: ExtrOcamlBasic only; ocaml/zconv.ml + ocaml/c11/main.ml glue; harness/src/bin/c11.rs",
@@ -469,7 +474,10 @@ class C11(PropBase):
                    "hypothesis of the theorems: fewer than 2^32-1 INLINE ranges in one FUNC. The u32 depth counter of `for depth in 1..` can only "
                    "overflow after 2^32-1 successful lookups at depths 1..2^32-1, i.e. 2^32 INLINE records of pairwise distinct depth in one FUNC "
                    "(each its own line of >= 16 bytes, > 64 GiB of text, and 2^32 x 32-byte Inlinee = 128 GiB of Vec): not reachable by a file the parser can hold",
-                   "module lookup in front-end S is the C08 table (modelled in Driver.v, proved in C08); the composition is compared, not proved"]
+                   "module lookup in front-end S is the C08 table (Model.v mod_table/frame_of, proved in C08 and composed in c11_module_lookup_compose / c11_module_isolated_found)",
+                   "c11_source_tie covers the lookup side (fill_symbol, find_nearest_public, get_inlinee_at_depth, get_outermost/innermost_sourceloc, memory_range, the filters and sort keys of finish_item, "
+                   "the forwarding in Symbolizer::fill_symbol / get_symbol_at_address / fill_source_line_info) and, on the parse side, insert_win_stack_info, StackInfoWin::memory_range and the merge step of the "
+                   "parser-local into_rangemap_safe; the trait into_rangemap_safe of minidump-common (line tables; C08's model), range_map::Range::intersects and std's sort / binary search stay correspondence-only"]
     manifest = {
         "text": "Theorems (Coq, all symbol files, addresses, module bases < 2^64, both build profiles): a reported FUNC is a record of the file whose range "
                 "contains the address, bases never exceed the instruction and the additions cannot overflow; the PUBLIC fallback is the last PUBLIC at or "
@@ -477,7 +485,10 @@ class C11(PropBase):
                 "record or the covering depth-0 inline call site; the inline chain has depths 0,1,2.. each covering the address, frames carry the next "
                 "call site / innermost line, reversed in the stack frame, and the depth loop ends within fuel = number of inlinees; for non-overlapping "
                 "files everything (incl. the STACK WIN parameter size) equals a linear scan; the whole table of C09's byte-level parser model (finish) is related to the text's records and fill_symbol on it "
-                "equals symbolize on them (c11_from_text); the module-list lookup of C08 composes with fill_symbol (c11_module_lookup_compose). Model and real code (parser + fill_symbol + walk_stack over a module list + Symbolizer::get_symbol_at_address) are run on the same generated files in "
+                "equals symbolize on them (c11_from_text); the module-list lookup of C08 composes with fill_symbol (c11_module_lookup_compose) and a module intersecting no other is the one found, also at the top of the address space (c11_module_isolated_found); "
+                "for ALL files a covering FUNC record that intersects no other FUNC record is the one reported (c11_isolated_func_found); one symbolication makes 0 inline lookups without a covering FUNC and otherwise "
+                "1 + chain length <= INLINE ranges of the FUNC + 1, for any fuel (c11_inline_lookups_bounded); the lookup side of the model is regenerated from the Rust source on every run and proved equal "
+                "to the hand-written model (c11_source_tie: operators, operands, constants, table order, keys, loop bounds; structure pinned by templates that abort on unrecognised source). Model and real code (parser + fill_symbol + walk_stack over a module list + Symbolizer::get_symbol_at_address) are run on the same generated files in "
                 "debug and release; an independent Python linear-scan oracle judges the real output.",
         "note": "Trusted: Coq kernel; hand-written model (correspondence-checked, parser table construction included); ExtrOcamlBasic extraction + OCaml/Rust glue; "
                 "std binary search and sort modelled from their documented algorithms. No axioms.",
